@@ -859,3 +859,167 @@ func c08r9(rc *core.RC) {
 		rc.Unknown("encoder/recursive-emitters", token.NoPos, "found %d functions that emit recursive references (confirmed: StructCode.ToOpcode and ToAnonymousOpcode)", n)
 	}
 }
+
+// ---- C08.R10 marshaler heads: the nil test covers the address-taken case ----
+
+// For *struct{ M T } with a pointer-receiver marshaler on T the compiler hands the handler the
+// struct's own address with the indirect flag cleared and AddrForMarshalerFlags set. The head
+// handler adds the field offset to that address, so it has to leave through the null exit when
+// the address is nil under either flag.
+func c08r10(rc *core.RC) {
+	p := rc.P
+	n := 0
+	for _, vm := range core.VMPkgs {
+		fd := p.Func(vm, "Run")
+		if fd == nil {
+			rc.Unknown(vm+".Run", token.NoPos, "not found")
+			continue
+		}
+		info := p.Info(fd)
+		rc.Touch(vm + ".Run")
+		ast.Inspect(fd.Body, func(m ast.Node) bool {
+			cc, ok := m.(*ast.CaseClause)
+			if !ok {
+				return true
+			}
+			for _, l := range cc.List {
+				name := ""
+				if sel, ok := l.(*ast.SelectorExpr); ok {
+					name = sel.Sel.Name
+				}
+				switch name {
+				case "OpStructHeadMarshalJSON", "OpStructHeadOmitEmptyMarshalJSON", "OpStructHeadMarshalText", "OpStructHeadOmitEmptyMarshalText":
+				default:
+					continue
+				}
+				n++
+				key := vm + ".Run/case " + name + "/nil-struct-address"
+				// does the handler pass an address-of-field to the marshaler helper?
+				var nilTest *ast.IfStmt
+				for _, st := range cc.Body {
+					ifs, ok := st.(*ast.IfStmt)
+					if !ok {
+						continue
+					}
+					hasNil := false
+					ast.Inspect(ifs.Cond, func(k ast.Node) bool {
+						if be, ok := k.(*ast.BinaryExpr); ok && be.Op == token.EQL {
+							if v, ok := core.ConstInt(info, be.Y); ok && v == 0 {
+								if id, ok := core.Unparen(be.X).(*ast.Ident); ok && id.Name == "p" {
+									hasNil = true
+								}
+							}
+						}
+						return true
+					})
+					if hasNil {
+						nilTest = ifs
+						break
+					}
+				}
+				if nilTest == nil {
+					rc.Bad(key, cc.Pos(), "the handler never tests the struct address for nil before adding the field offset")
+					continue
+				}
+				src := core.Src(p.Fset, nilTest.Cond)
+				leaves := strings.Contains(core.Src(p.Fset, nilTest.Body), "code.End.Next")
+				if strings.Contains(src, "AddrForMarshalerFlags") && strings.Contains(src, "IndirectFlags") && leaves {
+					rc.OK(key, nilTest.Pos(), "nil struct address leaves through the null exit under IndirectFlags and under AddrForMarshalerFlags")
+				} else {
+					rc.Bad(key, nilTest.Pos(), "the nil test `%s` does not cover AddrForMarshalerFlags: for *struct{ M T } with a pointer-receiver marshaler the struct's address arrives with the indirect flag cleared, and a nil pointer is dereferenced", src)
+				}
+			}
+			return true
+		})
+	}
+	if n < 16 {
+		rc.Unknown("vm/marshaler-heads", token.NoPos, "found %d marshaler head handlers (4 per interpreter expected)", n)
+	}
+}
+
+// ---- C08.R11 marshaler pointer heads honour the pointer depth on every path ----
+
+// The compiler records how many pointers lead to the struct in code.PtrNum. In the four
+// marshaler pointer-head handlers the depth is followed only under IndirectFlags; for
+// **struct{ M T } with a pointer-receiver marshaler (indirect flag cleared by the compiler,
+// PtrNum 2 in a nested position, or a root pointer to a pointer) the handler hands the
+// marshaler the address of the pointer instead of the address of the struct.
+func c08r11(rc *core.RC) {
+	p := rc.P
+	n := 0
+	for _, vm := range core.VMPkgs {
+		fd := p.Func(vm, "Run")
+		if fd == nil {
+			continue
+		}
+		info := p.Info(fd)
+		rc.Touch(vm + ".Run")
+		ast.Inspect(fd.Body, func(m ast.Node) bool {
+			cc, ok := m.(*ast.CaseClause)
+			if !ok {
+				return true
+			}
+			for _, l := range cc.List {
+				name := ""
+				if sel, ok := l.(*ast.SelectorExpr); ok {
+					name = sel.Sel.Name
+				}
+				switch name {
+				case "OpStructPtrHeadMarshalJSON", "OpStructPtrHeadOmitEmptyMarshalJSON", "OpStructPtrHeadMarshalText", "OpStructPtrHeadOmitEmptyMarshalText":
+				default:
+					continue
+				}
+				n++
+				key := vm + ".Run/case " + name + "/pointer-depth"
+				// every use of code.PtrNum in the clause, and whether one is outside an `if IndirectFlags` without else
+				reads, unguarded := 0, 0
+				var walk func(list []ast.Stmt, underIndirectOnly bool)
+				count := func(nd ast.Node) int {
+					k := 0
+					ast.Inspect(nd, func(x ast.Node) bool {
+						if f := core.FieldOf(info, exprOf(x)); f != nil && f.Name() == "PtrNum" {
+							k++
+						}
+						return true
+					})
+					return k
+				}
+				walk = func(list []ast.Stmt, under bool) {
+					for _, st := range list {
+						if ifs, ok := st.(*ast.IfStmt); ok {
+							isInd := strings.Contains(core.Src(p.Fset, ifs.Cond), "IndirectFlags")
+							reads += count(ifs.Cond)
+							walk(ifs.Body.List, under || (isInd && ifs.Else == nil))
+							if ifs.Else != nil {
+								if eb, ok := ifs.Else.(*ast.BlockStmt); ok {
+									walk(eb.List, under)
+								} else {
+									walk([]ast.Stmt{ifs.Else}, under)
+								}
+							}
+							continue
+						}
+						k := count(st)
+						reads += k
+						if !under {
+							unguarded += k
+						}
+					}
+				}
+				walk(cc.Body, false)
+				switch {
+				case reads == 0:
+					rc.Bad(key, cc.Pos(), "the handler never reads code.PtrNum")
+				case unguarded == 0:
+					rc.Bad(key, cc.Pos(), "code.PtrNum is followed only under the IndirectFlags test, which the compiler clears when it moves the pointer to a marshaler field: with more than one pointer in front of the struct the marshaler receives the address of a pointer")
+				default:
+					rc.OK(key, cc.Pos(), "the pointer depth is honoured when the indirect flag is clear")
+				}
+			}
+			return true
+		})
+	}
+	if n < 16 {
+		rc.Unknown("vm/marshaler-pointer-heads", token.NoPos, "found %d marshaler pointer-head handlers (4 per interpreter expected)", n)
+	}
+}
